@@ -20,7 +20,7 @@ PY = '/venv/bin/python'
 NPROC = int(os.environ.get('VERIF_JOBS', '0')) or min(16, os.cpu_count() or 4)
 
 ENV = dict(os.environ, PYTHONPATH=os.path.join(REPO, 'src'), PYTHONDONTWRITEBYTECODE='1',
-           PYTHONHASHSEED='0', RIMU_REPO=REPO)
+           PYTHONHASHSEED='0', RIMU_REPO=REPO, RIMU_RESOURCES=os.path.join(COQ, 'Gen', 'resources.txt'))
 
 
 # ---------------------------------------------------------------------------
@@ -420,3 +420,53 @@ def compare_history(model, impl, project=None):
 
 def has_sigma(s):
     return 'Σ' in s or 'İ' in s
+
+
+# ---------------------------------------------------------------------------
+# CLI cases (C18)
+
+def cli_line(case):
+    toks = ['M', str(len(case['argv']))] + [enc_str(a) for a in case['argv']]
+    toks.append(enc_str(case.get('stdin', '')))
+    toks.append('n' if case.get('rimurc') is None else enc_str(case['rimurc']))
+    files = case.get('files', [])
+    toks.append(str(len(files)))
+    for p, c in files:
+        toks += [enc_str(p), enc_str(c)]
+    return ' '.join(toks)
+
+
+def parse_cli_output(line):
+    toks = line.split(' ')
+    if toks[0] == 'C':
+        n = int(toks[3])
+        err = [dec_str(t) for t in toks[4:4 + n]]
+        rest = toks[4 + n:]
+        outfile = None if rest[0] == 'n' else [dec_str(rest[0]), dec_str(rest[1])]
+        return {'status': 'done', 'exit': int(toks[1]), 'stdout': dec_str(toks[2]), 'stderr': err, 'outfile': outfile}
+    if toks[0] == 'X':
+        return {'status': 'raise', 'exn': toks[1]}
+    if toks[0] == 'F':
+        return {'status': 'fuel'}
+    return {'status': 'driver_error', 'msg': line[:200]}
+
+
+def compare_cli(model, impl):
+    if impl.get('timeout'):
+        return None if model['status'] == 'fuel' else 'impl timeout, model %s' % model['status']
+    if 'status' not in impl:
+        return 'impl worker failure: %r' % (impl,)
+    if model['status'] == 'raise' and model.get('exn') == 'Unsupported':
+        return 'SKIP'
+    if model['status'] == 'fuel' and impl['status'] == 'raise' and impl.get('exn') == 'Recursion':
+        return None
+    if model['status'] != impl['status']:
+        return 'model %s(%s), impl %s(%s %s)' % (model['status'], model.get('exn', ''), impl['status'], impl.get('exn', ''), impl.get('msg', ''))
+    if model['status'] == 'raise':
+        return None if model['exn'] == impl['exn'] else 'model raises %s, impl raises %s' % (model['exn'], impl['exn'])
+    model = dict(model)
+    model['stderr'] = [l for m in model['stderr'] for l in m.split('\n') if l != '']   # stderr is compared line by line
+    for k in ('exit', 'stdout', 'stderr', 'outfile'):
+        if model[k] != impl[k]:
+            return '%s differs: model %r impl %r' % (k, str(model[k])[:300], str(impl[k])[:300])
+    return None
